@@ -4,14 +4,6 @@ entries below the directory (each once), parents first. -/
 namespace Rj
 open FS
 
-/-- the listing on nodes: every child of `dir`, each real folder followed by its own listing -/
-def listNodes (fs : FS) : Nat → FPath → List (FPath × Node)
-  | 0, _ => []
-  | f + 1, dir => (fs.childrenOf dir).flatMap fun e =>
-      e :: (match e.2 with
-        | .folder => listNodes fs f e.1
-        | _ => [])
-
 /-- the representation invariant of a file system value: one entry per path -/
 def FS.Wf (fs : FS) : Prop := (fs.nodes.map (·.1)).Nodup
 
@@ -116,7 +108,7 @@ namespace Rj
 open FS
 
 theorem block_prefix (fs : FS) (hw : fs.Wf) (f : Nat) (e : FPath × Node) (x : FPath × Node)
-    (hx : x ∈ e :: (match e.2 with | .folder => listNodes fs f e.1 | _ => [])) : e.1 <+: x.1 := by
+    (hx : x ∈ e :: (if e.2 = .folder then listNodes fs f e.1 else [])) : e.1 <+: x.1 := by
   rcases List.mem_cons.mp hx with h | h
   · rw [h]; exact List.prefix_refl _
   · split at h
@@ -245,9 +237,9 @@ theorem listDir_eq_listNodes (fs : FS) (abs : List Comp) (root : FPath) (f : Nat
     simp only [listDir, listNodes] at hgood ⊢
     -- generalise the accumulator of the fold
     have key : ∀ (l : List (FPath × Node)) (acc : List (String × Details) × List ErrClass),
-        (∀ c ∈ l, ∀ e ∈ (c :: (match c.2 with | .folder => listNodes fs f c.1 | _ => [])), Reportable fs abs e) →
+        (∀ c ∈ l, ∀ e ∈ (c :: (if c.2 = .folder then listNodes fs f c.1 else [])), Reportable fs abs e) →
         l.foldl (listStep fs abs (fun _ => true) root (listDir fs abs (fun _ => true) root f)) acc =
-          (acc.1 ++ (l.flatMap fun c => c :: (match c.2 with | .folder => listNodes fs f c.1 | _ => [])).map
+          (acc.1 ++ (l.flatMap fun c => c :: (if c.2 = .folder then listNodes fs f c.1 else [])).map
             (fun e => (relString root e.1, detOr fs abs e)), acc.2) := by
       intro l
       induction l with
@@ -257,7 +249,7 @@ theorem listDir_eq_listNodes (fs : FS) (abs : List Comp) (root : FPath) (f : Nat
         have hc := hg c (by simp) c (by simp)
         simp only [List.foldl_cons]
         rw [listStep_good fs abs root _ acc c hc]
-        have hrest : ∀ c' ∈ rest, ∀ e ∈ (c' :: (match c'.2 with | .folder => listNodes fs f c'.1 | _ => [])), Reportable fs abs e :=
+        have hrest : ∀ c' ∈ rest, ∀ e ∈ (c' :: (if c'.2 = .folder then listNodes fs f c'.1 else [])), Reportable fs abs e :=
           fun c' hc' e he => hg c' (by simp [hc']) e he
         cases hk : c.2 with
         | folder =>
